@@ -402,15 +402,25 @@ impl<'dbg> FatDieRef<'dbg, Function> {
     }
 
     pub fn prolog_end_place(&self) -> Result<PlaceDescriptor<'_>, Error> {
-        let mut place = self.prolog_start_place()?;
-        while !place.prolog_end {
+        let ranges = self.ranges();
+        let start_place = self.prolog_start_place()?;
+        let end_addr = self.end_instruction()?;
+
+        // a prolog end must be a place of this function, and a compiler doesn't have to mark it
+        // (then the function body starts at the first place)
+        let mut place = start_place.clone();
+        while place.address < end_addr {
+            if place.prolog_end && !place.end_sequence && place.address.in_ranges(&ranges) {
+                return Ok(place);
+            }
+
             match place.next() {
                 None => break,
                 Some(next_place) => place = next_place,
             }
         }
 
-        Ok(place)
+        Ok(start_place)
     }
 
     pub fn prolog(&self) -> Result<Range, Error> {
